@@ -926,6 +926,10 @@ func (e *Exec) valEq(a, b Value, t types.Type) *Term {
 	case NilFunc:
 		_, ok := b.(NilFunc)
 		return tt.Bool(ok)
+	case ReflT:
+		// reflect.Type values: identical types are the same *rtype
+		y, ok := b.(ReflT)
+		return tt.Bool(ok && types.Identical(x.t, y.t))
 	case *ssa.Function, *ClosureV, *ssa.Builtin:
 		if _, ok := b.(NilFunc); ok {
 			return tt.Bool(false)
